@@ -28,7 +28,7 @@ SHAPE_PARAMS = {
     "Triangle": [[0.0, 0.5, 1.0], [-INF, 0.25, 0.75], [0.0, 0.0, 1.0]], "ZShape": [[0.0, 1.0], [0.25, 0.5]],
 }
 HEIGHTS = [1.0, 0.5, 0.96, 0.9995]
-WEIGHTS = [None, "0.500", "0.9996", "0.960"]
+WEIGHTS = [None, "0.500", "0.9996", "0.960", "0.12346"]
 
 
 def _set(path, value):
@@ -50,6 +50,15 @@ def singles(base: dict, numbers=None):
         for p in plist:
             for h in HEIGHTS:
                 out.append(("term", f"in0.term0={cls}{p}h{h}", _set(("inputs", 0, "terms", 0), R.shape(cls, tname, p, h))))
+    # --- Function / Linear terms inside an INPUT variable (only where no variable is called `x`, which is reserved) ----
+    names = [v["name"] for v in base["inputs"] + base["outputs"]]
+    if "x" not in names and n_in >= 2:
+        other = base["inputs"][1]["name"]
+        for toks in (["x", "*", other], ["2.000", "*", other, "+", "x"]):
+            tree = RF.parse(toks)
+            ft = R.function_term(tname, tree)
+            out.append(("term", f"in0.term0=Function({' '.join(toks)})", _set(("inputs", 0, "terms", 0), ft)))
+        out.append(("term", "in0.term0=Linear", _set(("inputs", 0, "terms", 0), {"cls": "Linear", "name": tname, "params": [0.5] * n_in + [0.125]})))
     # --- output terms (same kind as the base so that the engine still infers) ---------------------------------------
     o0 = base["outputs"][0]
     oname = o0["terms"][0]["name"]
